@@ -55,3 +55,8 @@ claimed["C10"] = dict(engine="engine-I", category="model_checking",
   text="every sequence over {A,C,R,N,-} up to length 6 (thorough 8) against three references (incl. one with R, N and '-'), 2000 rows per call, plus all length-3 sequences over 23 symbol spellings; each row compared with the expected SNP list, maximal ambiguity ranges and both counts; lengths 1-4 replayed through the real binary",
   note="trusted: c10Expect in harness/c10.go; small-scope argument: the scan's state is one open-run flag and two indices",
   design_ref="DESIGN.md 3 (C10)")
+claimed["C13"] = dict(engine="engine-I", category="model_checking",
+  technique="bounded-exhaustive differential between the --aggregate and per-sequence modes of the real code",
+  text="for snps, variants (GenBank/GFF3, reference record at first/middle/last position) and sam variants: every alignment of 1..4 sequences from a 6-row menu x --append-snps x every threshold in {0, 1, each occurring frequency as the same float64 quotient, its two neighbouring floats, midpoints}, plus n=1..60 sequences with k=1..n carriers at thresholds k/n and neighbours; the aggregate output must equal the counted per-sequence output",
+  note="trusted: the per-sequence mode (judged against models by C03-C05); order among equal positions is C12's subject",
+  design_ref="DESIGN.md 3 (C13)")
